@@ -42,6 +42,11 @@ def check(rep, ctx):
         rep.check(R_OV, False, construct=o["function"], stmt=o["stmt"],
                   message=f"`{o['stmt']}` requests {o['size']} bytes: more than the item holds whenever the other operand is larger -- the bytes of "
                           f"the next field, element or message are consumed and discarded", file=o["file"], line=o["line"])
+    for o in _scan.fixed_chunk_reads(ctx, ["kio.serial.readers", "kio.serial._parse", "kio.records.readers"]):
+        rep.check(R_OV, False, construct=o["function"], stmt=o["stmt"],
+                  message=f"`{o['stmt']}` in a loop takes {o['size']} bytes at a time whatever is still missing: unless the length is a multiple of "
+                          f"{o['size']} the last chunk swallows bytes of the next field, element or message (a chunked reader asks for "
+                          f"min(remaining, {o['size']}))", file=o["file"], line=o["line"])
     rep.count(R_OV, 1, instance="scan")
     R_TD = rep.rule("C10-e-time-reencodable", "the duration writers accept every timedelta their sibling readers can return (analysed on a plain "
                    "datetime.timedelta, guards evaluated at the extremes)", floor=2)
